@@ -501,9 +501,21 @@ Fixpoint lookup_all (t : table) (ks : list name) : res (list nat) :=
               | Some v => match lookup_all t r with Ok l => Ok (v :: l) | Raise e => Raise e end
               end
   end.
+(* for input_value in inputs: if input_value.name in value_info: deserialize_value_info_proto(...) *)
+Fixpoint apply_infos_named (h : heap) (vis : list vinfo) (ks : list name) (vs : list nat) : res heap :=
+  match ks, vs with
+  | k :: r, v :: vr => match apply_info_opt h k vis v with
+                       | Ok h1 => apply_infos_named h1 vis r vr
+                       | Raise e => Raise e
+                       end
+  | _, _ => Ok h
+  end.
 Definition deser_function (f : fproto) (h : heap) : res (heap * func) :=
-  let '(h1, invs) := alloc_named h (fp_ins f) in
+  let '(h0, invs) := alloc_named h (fp_ins f) in
   let tbl0 := table_of_names [] (fp_ins f) invs in
+  match apply_infos_named h0 (fp_vis f) (fp_ins f) invs with
+  | Raise e => Raise e
+  | Ok h1 =>
   match declare_nodes h1 tbl0 (fp_vis f) (fp_nodes f) with
   | Raise e => Raise e
   | Ok (h2, tbl1) =>
@@ -519,6 +531,7 @@ Definition deser_function (f : fproto) (h : heap) : res (heap * func) :=
         end
       end
     end
+  end
   end.
 Fixpoint deser_functions (fs : list fproto) (h : heap) : res (heap * list func) :=
   match fs with
